@@ -382,6 +382,15 @@ func NewModels(w *World) *Models {
 	m := &Models{govAddr: ModuleAddr(govtypes.ModuleName).String(), ParamChanged: map[string]int{}, LastUpdate: map[string]sdk.Msg{}, Grants: map[string]bool{}}
 	m.Ent = &EntModel{Denom: k.Ent.Denom, MinAccepts: k.Ent.MinAccepts, Limit: k.Ent.Limit, Whitelist: map[string]bool{}, Orders: map[uint64]*Order{}, NextID: k.StartPO, Completed: map[string]*big.Int{}}
 	m.Ent.setSigners(k.signersString(w.Actors))
+	if g := k.GenesisOrder; g != nil {
+		o := &Order{Id: k.StartPO, Purchaser: AddrOf(w.Actors, g.Purchaser).String(), Amount: mustInt(g.Amount).BigInt(), Denom: k.Ent.Denom, Status: g.Status, RaiseTime: uint64(GenesisTS) - 10}
+		if g.Status == 2 {
+			o.Decisions = []Decision{{w.Actors[k.Ent.Signers[0]].Bech(), 2, uint64(GenesisTS) - 5}}
+			o.CompletionTime = 0
+		}
+		m.Ent.Orders[k.StartPO] = o
+		m.Ent.NextID = k.StartPO + 1
+	}
 	for _, wl := range k.Whitelist {
 		m.Ent.Whitelist[w.Actors[wl].Bech()] = true
 	}
